@@ -5,11 +5,10 @@ from verifkit.props import serde_types as T
 ID = "C17"
 THM_MODULES = ["Minicbor.Thm.C17"]
 P = "Minicbor.C17."
-REQUIRED = [P + n for n in """ser_eq_encW ser_wellformed ser_representation ser_preferred
-roundtrip_partial roundtrip_plain option_in_option_counterexample
-char_behind_content_counterexample unit_behind_content_counterexample roundtrip_statement_false
-de_any_consumes_one_item unknown_struct_fields_ignored indefinite_seq_accepted indefinite_map_accepted
-indefinite_struct_accepted""".split()]
+REQUIRED = [P + n for n in """ser_eq_encW toW_valid ser_wellformed ser_representation
+roundtrip_plain roundtrip_partial roundtrip_statement_false option_in_option_counterexample
+char_behind_content_counterexample unit_behind_content_counterexample content_roundtrip_examples
+unknown_struct_fields_ignored indefinite_seq_accepted indefinite_map_accepted indefinite_struct_accepted""".split()]
 PACKAGES = ["hserde"]
 RULE = ("rt <type> <value>: ~100 serde types (std + derived: every Serializer/Deserializer method, externally / internally / adjacently tagged, "
         "untagged, flatten, bytes newtype, unknown-length seq/map) x type-directed values (integers dense at width edges 2^k±3, containers of "
